@@ -118,7 +118,7 @@ SPEC = {
         "rank ids: strings of 1-5 characters (letters, digits, a dot), distinct within a tensor; a tuple-coordinate rank has "
         "the list of the ids it combines.  Rank ids are judged only on tensor-level round trips (swizzle + inverse, swap twice, "
         "flatten(tuple / pair) + unflatten): they must equal the operand's (the statement's `restores an equal tensor`; which ids "
-        "an intermediate result carries is C14's).  TEMPORARY guard pending decision: not judged when an upper combined rank of the "
+        "an intermediate result carries is C14's).  Observed, not claimed (DESIGN 12.3): not judged when an upper combined rank of the "
         "flattening already has a list id - the id of a flattened rank is a flat list, so [[K, M], N] -> [K, M, N] is "
         "unflattened to K, [M, N] although the coordinates are restored",
         "operands that are the result of a split: the split is C08's - the case is dropped unless the split returned a "
@@ -1138,7 +1138,7 @@ def _run_flatten(ctx):
             mon.count("roundtrips_checked")
             rids = ctx.ids if mode == "tensor" else None
             if rids is not None and tr is not None and d <= tr < d + l:
-                # TEMPORARY guard pending decision: the id of a flattened rank is a flat list, so after a 'pair' flattening whose
+                # observed, not claimed (DESIGN 12.3): the id of a flattened rank is a flat list, so after a 'pair' flattening whose
                 # upper combined rank already has a list id ([[K, M], N] -> [K, M, N]) unflatten restores the coordinates but
                 # names the ranks K and [M, N]
                 mon.count("rank_ids_not_judged:upper-combined-rank-has-list-id")
